@@ -808,6 +808,7 @@ func main() {
 	emitFields("fields_TokenV4", structFields(cashuP, "TokenV4"))
 	emitFields("fields_TokenV4Proof", structFields(cashuP, "TokenV4Proof"))
 	emitFields("fields_ProofV4", structFields(cashuP, "ProofV4"))
+	emitFields("fields_nut10_SecretData", structFields(nut10P, "SecretData"))
 	emitFields("fields_DLEQV4", structFields(cashuP, "DLEQV4"))
 	emitFields("fields_Error", structFields(cashuP, "Error"))
 	emitFields("fields_MintQuoteResponse", structFields(nut04P, "PostMintQuoteBolt11Response"))
@@ -973,7 +974,7 @@ func main() {
 	emitSelectFacts(w, walletP, cashuP, mintP)
 
 	// --- spending conditions (C12/C13): pinned bodies of the functions Model.Spend mirrors ---
-	emitSpendFacts(w, nut11P, nut14P, mintP)
+	emitSpendFacts(w, nut10P, nut11P, nut14P, mintP)
 
 	// --- C11 / C10 / C09: glue of the derivation functions (see emitSpecFacts below) ---
 	emitSpecFacts(w, cryptoP, nut13P, walletP)
@@ -1156,7 +1157,7 @@ func bodyLines(fd *ast.FuncDecl) []string {
 	return out
 }
 
-func emitSpendFacts(w func(string, ...any), nut11P, nut14P, mintP *pkg) {
+func emitSpendFacts(w func(string, ...any), nut10P, nut11P, nut14P, mintP *pkg) {
 	w("\n/-! ## spending conditions: bodies of the functions mirrored by Model.Spend (go/printer, comments stripped) -/\n")
 	emit := func(lean string, fd *ast.FuncDecl) {
 		w("def %s : List String := %s\n", lean, leanStrList(bodyLines(fd)))
@@ -1169,6 +1170,9 @@ func emitSpendFacts(w func(string, ...any), nut11P, nut14P, mintP *pkg) {
 		emit("body_nut14_"+fn, findFunc(nut14P, "", fn))
 	}
 	emit("body_mint_verifyBlindedMessages", findFunc(mintP, "", "verifyBlindedMessages"))
+	// the text of a secret: Model.Nut10Parse mirrors DeserializeSecret (and reads what SerializeSecret writes)
+	emit("body_nut10_DeserializeSecret", findFunc(nut10P, "", "DeserializeSecret"))
+	emit("body_nut10_SerializeSecret", findFunc(nut10P, "", "SerializeSecret"))
 	// what the two output-signing helpers hash, and what they hex-decode
 	w("def args_p2pkOutputsHash : List (List String) := [")
 	for i, r := range callArgs(findFunc(nut11P, "", "AddSignatureToOutputs"), "sha256.Sum256") {
